@@ -41,8 +41,10 @@ def malformed_ids(tier, rng):
     out = [1, 3, 2 ** 57, 2 ** 58, 2 ** 58 - 1, 2 ** 64 - 1, 2 ** 64, 2 ** 64 + 2, 2 ** 70 + 2 ** 57, 60 << 58, (60 << 58) | (1 << 57),
            (12 << 58) | (1 << 57), (59 << 58) | (1 << 57), (63 << 58) | 2, (63 << 58) | (1 << 56), 2 ** 57 + 2 ** 56, 2 ** 56 + 1, 6, 5, 4]
     for _ in range(n):
-        k = rng.randrange(6)
-        if k == 0:
+        k = rng.randrange(7)
+        if k == 6:
+            out.append(structured_u64(rng))
+        elif k == 0:
             out.append(rng.getrandbits(64))
         elif k == 1:
             out.append((rng.randrange(60, 64) << 58) | (rng.getrandbits(58) | 1 << rng.randrange(58)))
@@ -128,8 +130,28 @@ def info_ops(tier, rng):
             ops.append(f'nchildren {a} {b}')
     return ops
 
+def structured_u64(rng):
+    """a 64-bit value assembled from 2, 4, 8 or 16 parts, each part drawn independently from a palette of remarkable values
+    (zero, one, small, sign-bit, all-ones, random): products of special parts across lanes, which neither a one-lane sweep nor a
+    uniformly random value reaches"""
+    parts = rng.choice([2, 4, 8, 16])
+    w = 64 // parts
+    top = (1 << w) - 1
+    n = 0
+    for _ in range(parts):
+        k = rng.randrange(8)
+        v = [0, 1, rng.randint(1, min(255, top)), 1 << (w - 1), (1 << (w - 1)) - 1, top, top - rng.randint(0, min(255, top)), rng.getrandbits(w)][k]
+        n = (n << w) | (v & top)
+    return n
+
 def hex_ops(tier, rng):
     ops = []
+    for _ in range(3000 if tier == 'quick' else 200000):
+        ops.append(f'hex {structured_u64(rng)}')
+    for k in range(64):
+        for j in (1, 2, 9, 10, 15, 16, 17, 255, 256, 257, 4095, 4096, 65535, 65536):
+            ops.append(f'hex {((1 << k) + j) & ((1 << 64) - 1)}')
+            ops.append(f'hex {((1 << k) - j) % (1 << 64)}')
     lanes = [0, 16, 32, 48]
     step = 1 if tier == 'thorough' else 17
     for lane in lanes:
@@ -298,8 +320,21 @@ def compact_inputs(tier, rng):
         lists.append(all_ids(4)); lists.append(all_ids(5))
     return lists
 
+def with_structured_orders(lists, rng, p_up=0.35, p_down=0.15):
+    """a caller's list is often *already ordered* (ascending ids, descending ids): add those orders of a share of the lists, next to the shuffled ones"""
+    out = []
+    for l in lists:
+        out.append(l)
+        if len(l) >= 2:
+            u = rng.random()
+            if u < p_up:
+                out.append(sorted(l))
+            elif u < p_up + p_down:
+                out.append(sorted(l, reverse=True))
+    return out
+
 def compact_ops(tier, rng):
-    ops = ['compact ' + ' '.join(map(str, l)) if l else 'compact' for l in compact_inputs(tier, rng)]
+    ops = ['compact ' + ' '.join(map(str, l)) if l else 'compact' for l in with_structured_orders(compact_inputs(tier, rng), rng)]
     for n in malformed_ids(tier, rng)[:60]:
         ops.append(f'compact {n} {random_valid_id(rng)}')
     return ops
